@@ -48,7 +48,8 @@ async def run_scenario(sc):
     op = sc["op"]
     oids = [OID(oidstr(conc(o))) for o in sc["oids"]]
     pert = sc.get("perturb", "none")
-    real_time = U.time
+    import puresnmp.api.raw, puresnmp_plugins.security.usm  # noqa
+    _clk = None
     try:
         if proto.startswith("v3"):
             if sc.get("disco"):
@@ -59,7 +60,10 @@ async def run_scenario(sc):
                 # warm-up: run discovery before the stepping clock is installed
                 from puresnmp.pdu import GetRequest, PDUContent
                 await c.mpm.encode(1, c.credentials, b"", b"", GetRequest(PDUContent(1, [])))
-        U.time = Clock(sc.get("t0", 1000), sc.get("ticks"), events)
+        # every request-id generation is one read of the stepping clock
+        _ck = Clock(sc.get("t0", 1000), sc.get("ticks"), events)
+        _clk = patched_clock(None, request_id=_ck)
+        _clk.__enter__()
 
         def on_request(req):
             kind = KIND.get(req["ptype"], "other")
@@ -134,7 +138,8 @@ async def run_scenario(sc):
             events.append(dict(e="ret", kind="exc", cls=exc_name(ex), snmp=is_snmp_error(ex), status=st if isinstance(st, int) else 0,
                                oid=absoid(oo.nodes) if oo is not None and len(oo.nodes) > 1 else [], data=[]))
     finally:
-        U.time = real_time
+        if _clk is not None:
+            _clk.__exit__(None, None, None)
     return dict(scenario=sc, events=events)
 
 
